@@ -11,6 +11,7 @@ import copy
 import importlib
 import inspect
 import json
+import sys
 import traceback
 import types
 
@@ -73,12 +74,16 @@ def resolve(name):
     return o
 
 
+_AIO_WAIT, _AIO_RUN, _AIO_ENSURE = asyncio.wait, asyncio.run, asyncio.ensure_future  # the harness keeps the real ones
+
+
 class Builder:
     def __init__(self, registry, ghost, rec):
         self.reg = registry
         self.ghost = ghost
         self.rec = rec
         self.memo = {}
+        self.tokens = {}
 
     def callback(self, cb):
         ghost, rec = self.ghost, self.rec
@@ -97,8 +102,14 @@ class Builder:
         call.__name__ = cb.name
         if getattr(cb, 'is_async', False):
 
-            async def acall(*args, **kw):
-                return call(*args, **kw)
+            def acall(*args, **kw):
+                # like the symbolic execution: the effect happens at the call, the awaitable is already complete
+                r = call(*args, **kw)
+
+                async def done():
+                    return r
+
+                return done()
 
             return acall
         return call
@@ -125,6 +136,11 @@ class Builder:
             r = Stub()
         elif '__opaque__' in d:
             r = Stub()
+        elif '__opq__' in d:
+            key = tuple(d['__opq__'])
+            r = self.tokens.get(key)
+            if r is None:
+                r = self.tokens[key] = OpaqueToken(*key)
         elif '__obj__' in d:
             r = self.build_obj(d)
         else:
@@ -194,6 +210,22 @@ class Builder:
         return out
 
 
+class OpaqueToken:
+    """native stand-in for a value declared Opaque(tag): only its identity matters"""
+
+    def __init__(self, tag, n):
+        self.tag, self.n = tag, n
+
+    def __repr__(self):
+        return f'<{self.tag}#{self.n}>'
+
+    def __deepcopy__(self, memo):
+        return self
+
+    def __copy__(self):
+        return self
+
+
 def _is_event_field(ft):
     if isinstance(ft, tuple):
         ft = ft[0]
@@ -214,17 +246,52 @@ def flatten(v):
     return [bool(v)]
 
 
-def snapshot(x):
+def snapshot(x, depth=0):
+    """entry value of x for `old.*`: a deep copy; where some part cannot be deep-copied (recorders, pyee emitters,
+    asyncio objects) the copy is made field by field and only that part stays shared with the live object"""
     try:
-        return copy.deepcopy(x)
+        memo = {}
+        y = copy.deepcopy(x, memo)
+        # remember which live object each copy stands for: contracts.same(a, b) compares objects across `old`
+        for o in memo.get(id(memo), []):
+            c = memo.get(id(o))
+            if c is not None and c is not o and hasattr(c, '__dict__'):
+                C._ORIGIN[id(c)] = o
+                C._KEEP.append(c)
+        return y
     except Exception:
+        pass
+    if depth > 6:
         return x
+    try:
+        if isinstance(x, dict):
+            return type(x)((k, snapshot(v, depth + 1)) for k, v in x.items()) if type(x) is dict else x
+        if isinstance(x, (list, tuple)) and type(x) in (list, tuple):
+            return type(x)(snapshot(v, depth + 1) for v in x)
+        if hasattr(x, '__dict__') and not isinstance(x, type) and not callable(x):
+            try:
+                y = copy.copy(x)
+            except Exception:
+                y = object.__new__(type(x))
+            C._ORIGIN[id(y)] = x
+            C._KEEP.append(y)
+            for k, v in list(vars(x).items()):
+                try:
+                    object.__setattr__(y, k, snapshot(v, depth + 1))
+                except Exception:
+                    pass
+            return y
+    except Exception:
+        pass
+    return x
 
 
 def run_native(top, registry, state, extra_check=None):
     """state: {'env': {param: desc}, 'ghost': desc}.  Returns dict with
     outcome in {'violated','held','precondition-false','error'}"""
     rec = Recorder()
+    C._ORIGIN.clear()
+    C._KEEP.clear()
     gdesc = state.get('ghost') or {'__obj__': None, 'fields': {}}
     ghost = types.SimpleNamespace(**{k: v for k, v in gdesc.get('fields', {}).items()})
     b = Builder(registry, ghost, rec)
@@ -253,7 +320,7 @@ def run_native(top, registry, state, extra_check=None):
     patches = []
     for u in getattr(top, 'uses', []):
         c2 = registry.contracts.get(u)
-        if c2 is None or c2.requires is None or '<locals>' in c2.target:
+        if c2 is None or (c2.requires is None and not c2.extra.get('native_monitor')) or '<locals>' in c2.target:
             continue
         try:
             modname, qn = c2.target.split(':')
@@ -269,24 +336,76 @@ def run_native(top, registry, state, extra_check=None):
             sig = inspect.signature(orig)
             short = c2.key.split(':')[1]
 
-            def wrapper(*a, **k):
+            # contract kwarg `native_monitor=fn(ghost, args: dict, result, exc)`: ghost bookkeeping of a callee view
+            # (counters of the call's outcome) carried out natively after the real callee ran
+            mon = c2.extra.get('native_monitor')
+
+            def pre(a, k):
+                e = {}
                 try:
                     ba = sig.bind(*a, **k)
                     ba.apply_defaults()
                     e = dict(ba.arguments)
                     e['ghost'] = ghost
-                    vals = flatten(call_clause(c2.requires, e))
-                    for i, ok in enumerate(vals):
-                        if not ok:
-                            rec.violations.append(f'callee-pre#{short}#{i}')
+                    if c2.requires is not None:
+                        vals = flatten(call_clause(c2.requires, e))
+                        for i, ok in enumerate(vals):
+                            if not ok:
+                                rec.violations.append(f'callee-pre#{short}#{i}')
                 except Exception as ex:  # noqa: BLE001
                     rec.violations.append(f'monitor-error {short}: {ex!r}')
-                return orig(*a, **k)
+                return e
+
+            def post(e, result, exc_):
+                if mon is None:
+                    return
+                try:
+                    mon(ghost, e, result, exc_)
+                except Exception as ex:  # noqa: BLE001
+                    rec.violations.append(f'monitor-error {short}: {ex!r}')
+
+            if inspect.iscoroutinefunction(orig):
+
+                async def awrapper(*a, **k):
+                    e = pre(a, k)
+                    try:
+                        r = await orig(*a, **k)
+                    except Exception as ex:  # noqa: BLE001
+                        post(e, None, ex)
+                        raise
+                    post(e, r, None)
+                    return r
+
+                return awrapper
+
+            def wrapper(*a, **k):
+                e = pre(a, k)
+                try:
+                    r = orig(*a, **k)
+                except Exception as ex:  # noqa: BLE001
+                    post(e, None, ex)
+                    raise
+                post(e, r, None)
+                return r
 
             return wrapper
 
         patches.append((owner, attr, orig))
         setattr(owner, attr, mk(orig, c2))
+    # contract kwarg stubs={library callable: Callback}: the same replacement the symbolic execution made
+    # (the package attribute the code under contract reaches it through, e.g. asyncio.wait_for, is patched)
+    for f, cb in ((getattr(top, 'extra', {}) or {}).get('stubs') or {}).items():
+        try:
+            base = (getattr(f, '__module__', '') or '').split('.')[0]
+            fname = getattr(f, '__name__', None)
+            stub = b.callback(cb)
+            for pname in {base, base.lstrip('_')}:  # C accelerators live in _asyncio, the code says asyncio.X
+                pkg = sys.modules.get(pname)
+                if pkg is not None and fname and getattr(pkg, fname, None) is f:
+                    patches.append((pkg, fname, f))
+                    setattr(pkg, fname, stub)
+        except Exception:  # noqa: BLE001
+            pass
     import signal
 
     class ReplayTimeout(Exception):
@@ -307,6 +426,9 @@ def run_native(top, registry, state, extra_check=None):
             res = fn(**args)
         else:
             fn = resolve(top.target)
+            if (getattr(top, 'extra', {}) or {}).get('decorators_ok') and hasattr(fn, '__wrapped__'):
+                # the contract ignores the decorator (decorators_ok): replay the undecorated function
+                fn = fn.__wrapped__
             kwargs = dict(params)
             if 'self' in kwargs:
                 selfv = kwargs.pop('self')
@@ -321,8 +443,8 @@ def run_native(top, registry, state, extra_check=None):
             if wait_s:
                 # a task that never returns by design (pump loops): run it until it blocks
                 async def _bounded(coro):
-                    t = asyncio.ensure_future(coro)
-                    await asyncio.wait([t], timeout=wait_s)
+                    t = _AIO_ENSURE(coro)
+                    await _AIO_WAIT([t], timeout=wait_s)
                     if not t.done():
                         t.cancel()
                         try:
@@ -332,9 +454,9 @@ def run_native(top, registry, state, extra_check=None):
                         return None
                     return t.result()
 
-                res = asyncio.run(_bounded(res))
+                res = _AIO_RUN(_bounded(res))
             else:
-                res = asyncio.run(res)
+                res = _AIO_RUN(res)
     except AssertionError as e:
         tb = traceback.extract_tb(e.__traceback__)[-1]
         if is_lemma:
@@ -343,6 +465,8 @@ def run_native(top, registry, state, extra_check=None):
             exc = e
     except Exception as e:  # noqa: BLE001
         exc = e
+    except asyncio.CancelledError as e:  # a BaseException: a stub may cancel the function under contract
+        exc = e
     finally:
         try:
             signal.setitimer(signal.ITIMER_REAL, 0)
@@ -350,6 +474,8 @@ def run_native(top, registry, state, extra_check=None):
             pass
         for owner, attr, orig in patches:
             setattr(owner, attr, orig)
+    if isinstance(exc, RuntimeError) and 'no running event loop' in str(exc):
+        return {'outcome': 'error', 'detail': 'the function needs a running asyncio loop (task-spawning decorator): not runnable by the native harness'}
     if type(exc).__name__ == 'ReplayTimeout':
         return {'outcome': 'error', 'detail': 'native run exceeded 10 s (possible busy loop)'}
     env2 = dict(env)
